@@ -14,10 +14,11 @@ def main():
         import glob
         for f in sorted(glob.glob(os.path.join(lib.ROOT, "harness", "src", "bin", "*.rs"))):
             lib.build_harness(os.path.basename(f)[:-3], "debug")
-        ok, out = lib.build_coq()
+        # build everything that builds; a theorem file that no longer checks is reported by its own
+        # property check (VIOLATION ... no-failing-input-found), it must not stop the setup
+        ok, out = lib.build_coq(keep_going=True)
         if not ok:
-            print(out[-4000:])
-            return 1
+            print(out[-3000:])
         return 0
     if cmd == "check":
         pid = sys.argv[2]
